@@ -235,6 +235,7 @@ def _append_root_metadata(
     metadata_groups = []
     if "metadatabundle" not in rootgroup.keys():
         mdbundle_group = rootgroup.create_group('metadatabundle')
+        mdbundle_group.attrs.create("emd_group_type","metadatabundle")
     else:
         mdbundle_group = rootgroup['metadatabundle']
         for k in mdbundle_group.keys():
